@@ -2,7 +2,7 @@
    (Gen_UIntMath.v, Gen_MemPoolConst.v, Gen_MemPool.v are regenerated from /repo's headers on every run). *)
 From Coq Require Import ZArith List Bool Lia.
 From MomoCommon Require Import GenPrelude.
-From C09 Require Gen_UIntMath Gen_MemPoolConst Gen_MemPool.
+From C09 Require Gen_UIntMath Gen_MemPoolConst Gen_MemPool PoolLayout.
 Import ListNotations.
 Local Open Scope Z_scope.
 
@@ -16,6 +16,16 @@ Proof.
   rewrite Z.mod_small by lia. destruct (Z.ltb_spec x (2 ^ (w - 1))); lia.
 Qed.
 
+Lemma wrapS8_id x : -128 <= x < 128 -> wrapS 8 x = x.
+Proof.
+  intros H. unfold wrapS. change (2 ^ 8) with 256. change (2 ^ (8 - 1)) with 128.
+  destruct (Z_lt_le_dec x 0).
+  - replace (x mod 256) with (x + 256).
+    + destruct (Z.ltb_spec (x + 256) 128); lia.
+    + apply Z.mod_unique with (q := -1); lia.
+  - rewrite Z.mod_small by lia. destruct (Z.ltb_spec x 128); lia.
+Qed.
+
 (* ---------- UIntMath::Ceil ---------- *)
 Lemma Ceil_spec v m : 0 <= v -> 0 < m -> v + m < 2 ^ 64 ->
   exists k, Gen_UIntMath.Ceil v m = m * k /\ v <= m * k < v + m.
@@ -27,3 +37,547 @@ Proof.
   pose proof (Z.mod_pos_bound (v + m - 1) m Hm) as R.
   exists ((v + m - 1) / m). rewrite wrapU_small; [split|]; try lia.
 Qed.
+
+(* ---------- pvGetAlignmentAddend: finite sweep over every legal alignment 1..1024 ---------- *)
+Definition addend (A : Z) : Z := Gen_MemPool.pvGetAlignmentAddend 0 A.
+Definition gran (A : Z) : Z := A - addend A.     (* = min(maxAllocAlignment, lowest set bit of A) *)
+
+Lemma addend_indep bs A : Gen_MemPool.pvGetAlignmentAddend bs A = addend A.
+Proof. reflexivity. Qed.
+
+Definition addend_ok (A : Z) : bool :=
+  (0 <=? addend A) && (addend A <? A) && (A mod (gran A) =? 0) && (gran A <=? 16) && (16 mod (gran A) =? 0).
+
+Lemma addend_sweep : forallb addend_ok (map Z.of_nat (seq 1 1024)) = true.
+Proof. vm_compute. reflexivity. Qed.
+
+Lemma addend_facts A : 1 <= A <= 1024 ->
+  0 <= addend A < A /\ A mod (gran A) = 0 /\ 1 <= gran A <= 16.
+Proof.
+  intros H. pose proof addend_sweep as S. rewrite forallb_forall in S.
+  assert (In A (map Z.of_nat (seq 1 1024))) as I.
+  { apply in_map_iff. exists (Z.to_nat A). split; [lia|]. apply in_seq. lia. }
+  specialize (S A I). unfold addend_ok in S.
+  repeat (apply andb_prop in S; destruct S as [S ?]).
+  unfold gran in *.
+  repeat match goal with H : (_ <=? _) = true |- _ => apply Z.leb_le in H | H : (_ <? _) = true |- _ => apply Z.ltb_lt in H
+                    | H : (_ =? _) = true |- _ => apply Z.eqb_eq in H end.
+  lia.
+Qed.
+
+(* the offset of the first multiple of A at or after an address that is a multiple of gran A is at most addend A *)
+Lemma ceil_offset_le_addend A begin k :
+  1 <= A <= 1024 -> begin mod (gran A) = 0 -> begin <= A * k < begin + A -> A * k - begin <= addend A.
+Proof.
+  intros HA Hg Hk. destruct (addend_facts A HA) as (Ha & Hd & Hgr).
+  set (g := gran A) in *. assert (addend A = A - g) as -> by (unfold g, gran; lia).
+  assert (A = g * (A / g)) as EA by (pose proof (Z.div_mod A g ltac:(lia)); lia).
+  assert (begin = g * (begin / g)) as EB by (pose proof (Z.div_mod begin g ltac:(lia)); lia).
+  set (a := A / g) in *. set (b := begin / g) in *.
+  rewrite EA, EB in *. clearbody a b. clear EA EB Hd Hg Ha.
+  assert (g * (a * k - b) < g * a) by lia.
+  assert (a * k - b < a) by nia.
+  nia.
+Qed.
+
+(* ---------- canonical form of addresses: A * (m*T + Q), 0 <= Q < m, where blockSize B = A*m ---------- *)
+Section Layout.
+Variables C B A m : Z.
+Hypothesis HA : 1 <= A <= 1024.
+Hypothesis Hm : 2 <= m.
+Hypothesis HB : B = A * m.
+Hypothesis HC : 2 <= C <= 127.
+Hypothesis Hsmall : C * B + 4 * A + 32 < 2 ^ 63.
+
+Definition pt (T Q : Z) : Z := A * (m * T + Q).
+
+Lemma pt_div T Q : 0 <= Q < m -> pt T Q / B = T.
+Proof.
+  intros HQ. unfold pt. rewrite HB. rewrite Z.div_mul_cancel_l by lia.
+  rewrite (Z.mul_comm m T). rewrite Z.div_add_l by lia. rewrite Z.div_small by lia. lia.
+Qed.
+
+Lemma pt_mod T Q : 0 <= Q < m -> pt T Q mod B = A * Q.
+Proof.
+  intros HQ. unfold pt. rewrite HB. rewrite Z.mul_mod_distr_l by lia.
+  replace (m * T + Q) with (Q + T * m) by ring. rewrite Z.mod_add by lia. rewrite Z.mod_small by lia. reflexivity.
+Qed.
+
+Lemma pt_modA T Q : pt T Q mod A = 0.
+Proof. unfold pt. rewrite Z.mul_comm. apply Z.mod_mul. lia. Qed.
+
+Lemma pt_shift T Q j : pt T Q + j * B = pt (T + j) Q.
+Proof. unfold pt. rewrite HB. ring. Qed.
+
+Lemma pt_stepA T Q : pt T Q + A = pt T (Q + 1).
+Proof. unfold pt. ring. Qed.
+
+Lemma pt_carry T : pt T m = pt (T + 1) 0.
+Proof. unfold pt. ring. Qed.
+
+Lemma B_pos : 0 < B. Proof. rewrite HB. nia. Qed.
+Lemma B_small : B < 2 ^ 62. Proof. pose proof B_pos. rewrite two63 in Hsmall. change (2 ^ 62) with 4611686018427387904. nia. Qed.
+Lemma A_le_B : 2 * A <= B. Proof. rewrite HB. nia. Qed.
+
+Lemma mod_add_small T j : 0 <= j -> T mod C + j < C -> (T + j) mod C = T mod C + j.
+Proof.
+  intros Hj Hs. pose proof (Z.mod_pos_bound T C ltac:(lia)).
+  symmetry. apply Z.mod_unique with (q := T / C); [lia|].
+  pose proof (Z.div_mod T C ltac:(lia)). lia.
+Qed.
+
+(* pvGetBlock in closed form *)
+Lemma getblock_spec buffer i :
+  Gen_MemPool.pvGetBlock B A buffer i = buffer + i * B + (if 0 <=? i then A else 0).
+Proof.
+  unfold Gen_MemPool.pvGetBlock. pose proof B_pos. pose proof B_small.
+  rewrite (wrapS_small 64 B) by (change (2 ^ (64 - 1)) with (2 * 2 ^ 62); lia).
+  rewrite (wrapS_small 64 A) by (change (2 ^ (64 - 1)) with 9223372036854775808; lia).
+  rewrite Z.geb_leb. destruct (Z.leb_spec 0 i).
+  - change (- (1)) with (-1). rewrite Z.land_m1_r. reflexivity.
+  - change (- (0)) with 0. rewrite Z.land_0_r. reflexivity.
+Qed.
+
+(* pvGetBlockIndex on a canonical address: the direction bit is the parity of Q, the index comes from T mod C *)
+Lemma getblockindex_canon T Q :
+  0 <= T -> 0 <= Q < m ->
+  Gen_MemPool.pvGetBlockIndex C B A (pt T Q) =
+    let index := T mod C - (if Q mod 2 =? 0 then C else 0) in
+    Ok (index, pt T Q - index * B - (if Q mod 2 =? 0 then 0 else A)).
+Proof.
+  intros HT HQ. unfold Gen_MemPool.pvGetBlockIndex. cbv zeta.
+  pose proof B_pos. pose proof B_small.
+  rewrite pt_modA. rewrite Z.eqb_refl.
+  rewrite pt_mod, pt_div by assumption.
+  rewrite (Z.mul_comm A Q), Z.div_mul by lia.
+  pose proof (Z.mod_pos_bound Q 2 ltac:(lia)) as HQ2.
+  pose proof (Z.mod_pos_bound T C ltac:(lia)) as HTC.
+  rewrite (wrapS_small 64 (Q mod 2)) by (change (2 ^ (64 - 1)) with 9223372036854775808; lia).
+  rewrite (wrapS_small 64 (T mod C)) by (change (2 ^ (64 - 1)) with 9223372036854775808; lia).
+  rewrite (wrapS_small 64 C) by (change (2 ^ (64 - 1)) with 9223372036854775808; lia).
+  rewrite (wrapS_small 64 B) by (change (2 ^ (64 - 1)) with (2 * 2 ^ 62); lia).
+  rewrite (wrapS_small 64 A) by (change (2 ^ (64 - 1)) with 9223372036854775808; lia).
+  destruct (Z.eqb_spec (Q mod 2) 0) as [E|E].
+  - rewrite E. change (0 - 1) with (-1). rewrite Z.land_m1_r. change (- 0) with 0. rewrite Z.land_0_r.
+    rewrite wrapS8_id by lia. reflexivity.
+  - assert (Q mod 2 = 1) as E1 by lia. rewrite E1. change (1 - 1) with 0. rewrite Z.land_0_r.
+    change (- (1)) with (-1). rewrite Z.land_m1_r. rewrite wrapS8_id by lia.
+    rewrite Z.sub_0_r. reflexivity.
+Qed.
+(* pvGetBufferSize in closed form (no wrap-around under Hsmall) *)
+Lemma buffersize_spec :
+  Gen_MemPool.pvGetBufferSize C B A =
+    C * B + addend A + (2 + m mod 2) * A + (if 3 <=? A then 0 else 2) + 18.
+Proof.
+  unfold Gen_MemPool.pvGetBufferSize. rewrite addend_indep.
+  destruct (addend_facts A HA) as (Had & _ & _).
+  pose proof B_pos. pose proof (Z.mod_pos_bound m 2 ltac:(lia)).
+  assert (B / A = m) as -> by (rewrite HB, Z.mul_comm, Z.div_mul by lia; reflexivity).
+  unfold Gen_MemPool.pvIsBufferBytesNear. change (wrapU 64 (2 + 1)) with 3. rewrite Z.geb_leb.
+  change (wrapU 64 (2 * 8)) with 16.
+  rewrite two63 in Hsmall.
+  assert (0 <= (2 + m mod 2) * A <= 3 * A) by nia.
+  rewrite (wrapU_small 64 (C * B)) by (rewrite two64; nia).
+  rewrite (wrapU_small 64 (C * B + addend A)) by (rewrite two64; nia).
+  rewrite (wrapU_small 64 (2 + m mod 2)) by (rewrite two64; lia).
+  rewrite (wrapU_small 64 ((2 + m mod 2) * A)) by (rewrite two64; nia).
+  rewrite (wrapU_small 64 (C * B + addend A + (2 + m mod 2) * A)) by (rewrite two64; nia).
+  destruct (Z.leb_spec 3 A).
+  - rewrite (wrapU_small 64 (C * B + addend A + (2 + m mod 2) * A + 0)) by (rewrite two64; nia).
+    rewrite (wrapU_small 64 (C * B + addend A + (2 + m mod 2) * A + 0 + 16)) by (rewrite two64; nia).
+    rewrite wrapU_small by (rewrite two64; nia). lia.
+  - rewrite (wrapU_small 64 (C * B + addend A + (2 + m mod 2) * A + 2)) by (rewrite two64; nia).
+    rewrite (wrapU_small 64 (C * B + addend A + (2 + m mod 2) * A + 2 + 16)) by (rewrite two64; nia).
+    rewrite wrapU_small by (rewrite two64; nia). lia.
+Qed.
+
+(* what pvNewBuffer's first block looks like: canonical address whose direction bit (parity of Q) tells whether the
+   block index is 0 (odd, T mod C = 0) or negative (even, T mod C <> 0), and how far from `begin` it can be *)
+Definition first_ok (begin fb : Z) : Prop :=
+  exists T Q, fb = pt T Q /\ 0 <= T /\ 0 <= Q < m /\ begin <= fb /\
+   ((Q mod 2 = 0 /\ Q + 1 < m /\ T mod C <> 0 /\ fb <= begin + addend A + (1 + m mod 2) * A) \/
+    (Q mod 2 = 1 /\ T mod C = 0 /\ begin + A <= fb /\ fb <= begin + addend A + (2 + m mod 2) * A)).
+
+Lemma newbuffer_prefix_spec begin :
+  0 < begin -> begin mod (gran A) = 0 -> begin + Gen_MemPool.pvGetBufferSize C B A <= 2 ^ 64 ->
+  exists fb, Gen_MemPool.pvNewBuffer C B A begin = Ok (fb, fb - begin) /\ first_ok begin fb /\ fb - begin < 65536.
+Proof.
+  intros Hb0 Hbg Hend. rewrite buffersize_spec in Hend.
+  destruct (addend_facts A HA) as (Had & _ & _).
+  pose proof B_pos as HBp. pose proof A_le_B as HAB. pose proof (Z.mod_pos_bound m 2 ltac:(lia)) as Hm2.
+  assert (begin + 4 * A + 18 <= 2 ^ 64) as Hroom.
+  { assert (4 * A <= C * B) by nia. assert (0 <= (2 + m mod 2) * A) by nia. destruct (3 <=? A); lia. }
+  rewrite two64 in Hroom.
+  unfold Gen_MemPool.pvNewBuffer. cbv zeta.
+  destruct (Ceil_spec begin A ltac:(lia) ltac:(lia) ltac:(rewrite two64; lia)) as (k & Hk & Hkr).
+  pose proof (ceil_offset_le_addend A begin k HA Hbg Hkr) as Hoff.
+  rewrite Hk.
+  (* canonical form of p0 = A*k *)
+  set (t := k / m). set (q := k mod m).
+  assert (k = m * t + q) as Ek by (unfold t, q; apply Z.div_mod; lia).
+  assert (0 <= q < m) as Hq by (unfold q; apply Z.mod_pos_bound; lia).
+  assert (0 <= k) as Hk0 by nia.
+  assert (0 <= t) as Ht by (unfold t; apply Z.div_pos; lia).
+  assert (A * k = pt t q) as E0 by (unfold pt; rewrite Ek; reflexivity).
+  rewrite E0. rewrite E0 in Hkr, Hoff. clear Hk.
+  (* step 1 (line 612): make Q even *)
+  change (wrapU 64 (2 * A)) with (wrapU 64 (2 * A)).
+  rewrite (wrapU_small 64 (2 * A)) by (rewrite two64; lia).
+  rewrite pt_mod by assumption.
+  replace (2 * A) with (A * 2) by ring. rewrite Z.mul_mod_distr_l by lia.
+  pose proof (Z.mod_pos_bound q 2 ltac:(lia)) as Hq2.
+  rewrite (wrapU_small 64 (pt t q + A * (q mod 2))) by (rewrite two64; nia).
+  assert (exists T1 Q1, pt t q + A * (q mod 2) = pt T1 Q1 /\ 0 <= T1 /\ 0 <= Q1 < m /\ Q1 mod 2 = 0) as (T1 & Q1 & E1 & HT1 & HQ1 & HQ1e).
+  { assert ((q + q mod 2) mod 2 = 0) as Hev.
+    { rewrite Z.add_mod_idemp_r by lia. replace (q + q) with (q * 2) by ring. apply Z.mod_mul. lia. }
+    destruct (Z.eq_dec (q + q mod 2) m) as [E|E].
+    - exists (t + 1), 0. repeat split; try lia. rewrite <- pt_carry. unfold pt. rewrite <- E. ring.
+    - exists t, (q + q mod 2). repeat split; try lia. unfold pt. ring. }
+  rewrite E1.
+  assert (pt T1 Q1 <= pt t q + A) as B1 by nia.
+  (* step 2 (lines 613-614) *)
+  rewrite (wrapU_small 64 (pt T1 Q1 + A)) by (rewrite two64; lia).
+  set (p2 := if (pt T1 Q1 + A) mod B =? 0 then pt T1 Q1 + A else pt T1 Q1).
+  assert (exists T2 Q2, p2 = pt T2 Q2 /\ 0 <= T2 /\ 0 <= Q2 < m /\ Q2 mod 2 = 0 /\ Q2 + 1 < m /\
+                        pt T1 Q1 <= p2 <= pt T1 Q1 + (m mod 2) * A) as (T2 & Q2 & E2 & HT2 & HQ2 & HQ2e & HQ2m & B2).
+  { unfold p2. rewrite pt_stepA. destruct (Z.eq_dec (Q1 + 1) m) as [E|E].
+    - rewrite E, pt_carry. rewrite pt_mod by lia. rewrite Z.mul_0_r, Z.eqb_refl.
+      exists (T1 + 1), 0. repeat split; try lia.
+      + rewrite <- pt_carry, <- E, <- pt_stepA. lia.
+      + assert (m mod 2 = 1) as ->.
+        { rewrite <- E. rewrite <- Z.add_mod_idemp_l by lia. rewrite HQ1e. reflexivity. }
+        rewrite <- pt_carry, <- E, <- pt_stepA. lia.
+    - rewrite pt_mod by lia. destruct (Z.eqb_spec (A * (Q1 + 1)) 0) as [Z0|Z0]; [nia|].
+      exists T1, Q1. repeat split; try lia; try nia. }
+  clearbody p2. subst p2.
+  (* step 3 (lines 615-616) *)
+  rewrite pt_div by assumption.
+  rewrite (wrapU_small 64 (pt T2 Q2 + A)) by (rewrite two64; nia).
+  assert (0 <= (m mod 2) * A <= A) as Hm2A by nia.
+  destruct (Z.eqb_spec (T2 mod C) 0) as [Ez|Ez].
+  - rewrite (wrapU_small 64 (pt T2 Q2 + A - begin)) by (rewrite two64; nia).
+    change (wrapU 64 (Z.shiftl 1 16)) with 65536.
+    destruct (Z.ltb_spec (pt T2 Q2 + A - begin) 65536) as [L|L]; [|nia].
+    exists (pt T2 Q2 + A). split; [reflexivity|]. split; [|assumption].
+    exists T2, (Q2 + 1). rewrite pt_stepA. repeat split; try lia.
+    + rewrite <- pt_stepA. lia.
+    + right. repeat split; try lia.
+      * rewrite <- Z.add_mod_idemp_l by lia. rewrite HQ2e. reflexivity.
+      * rewrite <- pt_stepA. lia.
+      * rewrite <- pt_stepA. nia.
+  - rewrite (wrapU_small 64 (pt T2 Q2 - begin)) by (rewrite two64; nia).
+    change (wrapU 64 (Z.shiftl 1 16)) with 65536.
+    destruct (Z.ltb_spec (pt T2 Q2 - begin) 65536) as [L|L]; [|nia].
+    exists (pt T2 Q2). split; [reflexivity|]. split; [|assumption].
+    exists T2, Q2. repeat split; try lia; try (left; repeat split; try lia; nia).
+Qed.
+Lemma mod_add_wrap T j : 0 <= j -> C <= T mod C + j < 2 * C -> (T + j) mod C = T mod C + j - C.
+Proof.
+  intros Hj Hs. symmetry. apply Z.mod_unique with (q := T / C + 1); [lia|].
+  pose proof (Z.div_mod T C ltac:(lia)). lia.
+Qed.
+
+(* the complete result of pvNewBuffer's address computation (lines 605-622) *)
+Definition laid_out (begin fb first buffer : Z) : Prop :=
+  exists T Q, fb = pt T Q /\ 0 <= T /\ 0 <= Q < m /\ begin <= fb /\
+   ((Q mod 2 = 0 /\ Q + 1 < m /\ T mod C <> 0 /\ first = T mod C - C /\ buffer = fb - first * B /\
+     fb <= begin + addend A + (1 + m mod 2) * A) \/
+    (Q mod 2 = 1 /\ T mod C = 0 /\ first = 0 /\ buffer = fb - A /\ begin + A <= fb /\
+     fb <= begin + addend A + (2 + m mod 2) * A)).
+
+Lemma new_buffer_layout_spec begin :
+  0 < begin -> begin mod (gran A) = 0 -> begin + Gen_MemPool.pvGetBufferSize C B A <= 2 ^ 64 ->
+  exists fb first buffer,
+    PoolLayout.new_buffer_layout C B A begin = Ok (fb, fb - begin, first, buffer) /\
+    laid_out begin fb first buffer /\ fb - begin < 65536.
+Proof.
+  intros H1 H2 H3. destruct (newbuffer_prefix_spec begin H1 H2 H3) as (fb & E & (T & Q & Efb & HT & HQ & Hbf & Hcase) & Hoff).
+  unfold PoolLayout.new_buffer_layout. rewrite E.
+  replace (begin + (fb - begin)) with fb by ring. rewrite Efb.
+  rewrite getblockindex_canon by assumption. cbv zeta.
+  destruct Hcase as [(Qe & Qm & Tn & Bd)|(Qo & Tz & Bl & Bu)].
+  - rewrite Qe. simpl (0 =? 0).  cbv iota.
+    exists (pt T Q), (T mod C - C), (pt T Q - (T mod C - C) * B - 0).
+    split; [rewrite <- Efb; reflexivity|]. split; [|rewrite <- Efb; assumption].
+    exists T, Q. repeat split; try lia; try (left; repeat split; lia).
+  - rewrite Qo. simpl (1 =? 0). cbv iota. rewrite Tz.
+    exists (pt T Q), 0, (pt T Q - (0 - 0) * B - A).
+    split; [rewrite <- Efb; reflexivity|]. split; [|rewrite <- Efb; assumption].
+    exists T, Q. repeat split; try lia; try (right; repeat split; lia).
+Qed.
+
+(* explicit address of the j-th block of a laid-out buffer *)
+Lemma block_explicit begin fb first buffer j :
+  laid_out begin fb first buffer -> 0 <= j < C ->
+  -128 <= first + j <= 127 /\
+  PoolLayout.block_of B A buffer first j = fb + j * B + (if (first <? 0) && (0 <=? first + j) then A else 0).
+Proof.
+  intros (T & Q & Efb & HT & HQ & Hbf & Hcase) Hj.
+  pose proof (Z.mod_pos_bound T C ltac:(lia)) as HTC.
+  assert (-128 <= first + j <= 127) as R by (destruct Hcase as [(?&?&?&?&?&?)|(?&?&?&?&?&?)]; lia).
+  split; [exact R|].
+  unfold PoolLayout.block_of. rewrite wrapS8_id by lia. rewrite getblock_spec.
+  destruct Hcase as [(Qe & Qm & Tn & Ef & Eb & Bd)|(Qo & Tz & Ef & Eb & Bl & Bu)].
+  - assert (first <? 0 = true) as -> by (apply Z.ltb_lt; lia). simpl andb.
+    rewrite Eb. destruct (0 <=? first + j); ring.
+  - subst first. simpl (0 <? 0). simpl andb. cbv iota.
+    replace (0 + j) with j by ring. assert (0 <=? j = true) as -> by (apply Z.leb_le; lia). rewrite Eb. ring.
+Qed.
+
+Lemma first_block begin fb first buffer :
+  laid_out begin fb first buffer -> Gen_MemPool.pvGetBlock B A buffer first = fb.
+Proof.
+  intros L. destruct (block_explicit begin fb first buffer 0 L ltac:(lia)) as (R & E).
+  unfold PoolLayout.block_of in E. rewrite Z.add_0_r in E. rewrite wrapS8_id in E by lia. rewrite E.
+  destruct L as (T & Q & _ & _ & _ & _ & [(?&?&?&?&?&?)|(?&?&?&?&?&?)]).
+  - assert (0 <=? first = false) as -> by (apply Z.leb_gt; pose proof (Z.mod_pos_bound T C ltac:(lia)); lia).
+    rewrite andb_false_r. ring.
+  - subst first. simpl. ring.
+Qed.
+
+(* blockindex_roundtrip: the index and the buffer are recovered from the address of every block *)
+Lemma blockindex_roundtrip begin fb first buffer j :
+  laid_out begin fb first buffer -> 0 <= j < C ->
+  Gen_MemPool.pvGetBlockIndex C B A (PoolLayout.block_of B A buffer first j) = Ok (first + j, buffer).
+Proof.
+  intros L Hj. destruct (block_explicit begin fb first buffer j L Hj) as (R & E). rewrite E. clear E.
+  destruct L as (T & Q & Efb & HT & HQ & Hbf & Hcase).
+  pose proof (Z.mod_pos_bound T C ltac:(lia)) as HTC.
+  destruct Hcase as [(Qe & Qm & Tn & Ef & Eb & Bd)|(Qo & Tz & Ef & Eb & Bl & Bu)].
+  - assert (first <? 0 = true) as -> by (apply Z.ltb_lt; lia). simpl andb.
+    destruct (Z.leb_spec 0 (first + j)) as [G|G].
+    + (* non-negative index: one alignment step above the negative blocks *)
+      rewrite Efb, pt_shift, pt_stepA.
+      rewrite getblockindex_canon by lia. cbv zeta.
+      assert ((Q + 1) mod 2 = 1) as -> by (rewrite <- Z.add_mod_idemp_l by lia; rewrite Qe; reflexivity).
+      simpl (1 =? 0). cbv iota.
+      rewrite mod_add_wrap by lia.
+      f_equal. f_equal; [lia|]. rewrite Eb, Efb, <- pt_stepA, <- pt_shift. rewrite Ef. ring.
+    + rewrite Z.add_0_r. rewrite Efb, pt_shift.
+      rewrite getblockindex_canon by lia. cbv zeta. rewrite Qe. simpl (0 =? 0). cbv iota.
+      rewrite mod_add_small by lia.
+      f_equal. f_equal; [lia|]. rewrite Eb, Efb, <- pt_shift. rewrite Ef. ring.
+  - subst first. simpl (0 <? 0). simpl andb. cbv iota. rewrite Z.add_0_r.
+    rewrite Efb, pt_shift. rewrite getblockindex_canon by lia. cbv zeta. rewrite Qo. simpl (1 =? 0). cbv iota.
+    rewrite mod_add_small by lia. rewrite Tz.
+    f_equal. f_equal; [lia|]. rewrite Eb, Efb, <- pt_shift. ring.
+Qed.
+Lemma endpos_spec buffer first : - (C - 1) <= first <= 0 ->
+  Gen_MemPool.pvGetBlocksEndPosition C (fun _ => first) B A buffer = buffer + A + B * (C + first).
+Proof.
+  intros Hf. unfold Gen_MemPool.pvGetBlocksEndPosition. cbv zeta. pose proof B_pos. rewrite two63 in Hsmall.
+  rewrite (wrapU_small 64 (- first)) by (rewrite two64; lia).
+  replace (C - - first) with (C + first) by ring.
+  rewrite (wrapU_small 64 (C + first)) by (rewrite two64; lia).
+  rewrite wrapU_small by (rewrite two64; nia). reflexivity.
+Qed.
+
+Lemma laid_out_first_range begin fb first buffer : laid_out begin fb first buffer -> - (C - 1) <= first <= 0.
+Proof.
+  intros (T & Q & _ & _ & _ & _ & [(?&?&?&?&?&?)|(?&?&?&?&?&?)]); pose proof (Z.mod_pos_bound T C ltac:(lia)); lia.
+Qed.
+
+(* the geometry of a buffer: blocks aligned, inside the memory obtained, pairwise disjoint, disjoint from every byte the
+   pool itself uses in the buffer; those bytes are inside the memory obtained as well *)
+Lemma layout_geometry begin fb first buffer :
+  laid_out begin fb first buffer ->
+  let size := Gen_MemPool.pvGetBufferSize C B A in
+  (forall j, 0 <= j < C ->
+     let b := PoolLayout.block_of B A buffer first j in
+     b mod A = 0 /\ begin <= b /\ b + B <= begin + size /\
+     (forall j', j < j' < C -> b + B <= PoolLayout.block_of B A buffer first j') /\
+     (forall p len, In (p, len) (PoolLayout.meta_ranges C B A buffer first) -> p + len <= b \/ b + B <= p)) /\
+  (forall p len, In (p, len) (PoolLayout.meta_ranges C B A buffer first) -> begin <= p /\ p + len <= begin + size).
+Proof.
+  intros L size. unfold size. rewrite buffersize_spec.
+  pose proof (laid_out_first_range _ _ _ _ L) as Hfr.
+  pose proof B_pos as HBp. pose proof A_le_B as HAB.
+  destruct (addend_facts A HA) as (Had & _ & _).
+  pose proof (Z.mod_pos_bound m 2 ltac:(lia)) as Hm2.
+  assert (forall p len, In (p, len) (PoolLayout.meta_ranges C B A buffer first) ->
+            (p = buffer /\ len = 1) \/ (3 <= A /\ p = buffer + 1 /\ len = 2) \/
+            (buffer + A + B * (C + first) <= p /\ p + len <= buffer + A + B * (C + first) + (if 3 <=? A then 0 else 2) + 18)) as Hmeta.
+  { intros p len Hin. unfold PoolLayout.meta_ranges in Hin. cbv zeta in Hin.
+    unfold Gen_MemPool.pvGetBeginOffsetPosition, Gen_MemPool.pvGetNextBufferPosition, Gen_MemPool.pvGetPrevBufferPosition,
+      Gen_MemPool.pvGetBufferBytesPosition, Gen_MemPool.pvIsBufferBytesNear in Hin.
+    rewrite endpos_spec in Hin by assumption. change (wrapU 64 (2 + 1)) with 3 in Hin. rewrite Z.geb_leb in Hin.
+    simpl in Hin. destruct (Z.leb_spec 3 A);
+    repeat (destruct Hin as [Hin|Hin]; [inversion Hin; subst; clear Hin; lia|]); contradiction. }
+  assert (forall j, 0 <= j < C -> PoolLayout.block_of B A buffer first j = fb + j * B + (if (first <? 0) && (0 <=? first + j) then A else 0)) as Hblk
+    by (intros j Hj; apply (block_explicit begin fb first buffer j L Hj)).
+  destruct L as (T & Q & Efb & HT & HQ & Hbf & Hcase).
+  pose proof (Z.mod_pos_bound T C ltac:(lia)) as HTC.
+  assert (0 <= (1 + m mod 2) * A /\ (2 + m mod 2) * A = (1 + m mod 2) * A + A) as (Hx1 & Hx2) by nia.
+  split.
+  - intros j Hj. cbv zeta. rewrite (Hblk j Hj).
+    assert (0 <= j * B /\ (j + 1) * B <= C * B) as (Hj1 & Hj2) by nia.
+    split; [|split; [|split; [|split]]].
+    + (* aligned *)
+      rewrite Efb. unfold pt. rewrite HB.
+      destruct ((first <? 0) && (0 <=? first + j)).
+      * replace (A * (m * T + Q) + j * (A * m) + A) with ((m * T + Q + j * m + 1) * A) by ring. apply Z.mod_mul. lia.
+      * replace (A * (m * T + Q) + j * (A * m) + 0) with ((m * T + Q + j * m) * A) by ring. apply Z.mod_mul. lia.
+    + destruct ((first <? 0) && (0 <=? first + j)); lia.
+    + destruct Hcase as [(?&?&?&?&?&?)|(?&?&?&?&?&?)].
+      * destruct ((first <? 0) && (0 <=? first + j)); destruct (3 <=? A); lia.
+      * subst first. change (0 <? 0) with false. simpl andb. cbv iota. destruct (3 <=? A); lia.
+    + intros j' Hj'. rewrite (Hblk j' ltac:(lia)).
+      assert ((j + 1) * B <= j' * B) by nia.
+      destruct (Z.ltb_spec first 0); simpl andb; [|lia].
+      destruct (Z.leb_spec 0 (first + j)); destruct (Z.leb_spec 0 (first + j')); lia.
+    + intros p len Hin. destruct (Hmeta p len Hin) as [(Ep & El)|[(HA3 & Ep & El)|(Hp1 & Hp2)]].
+      * subst p len. destruct Hcase as [(?&?&?&Ef&Eb&?)|(?&?&Ef&Eb&?&?)].
+        -- assert (first <? 0 = true) as -> by (apply Z.ltb_lt; lia). simpl andb.
+           destruct (Z.leb_spec 0 (first + j)).
+           ++ left. rewrite Eb. assert (- first * B <= j * B) by nia. lia.
+           ++ right. rewrite Eb. assert ((j + 1) * B <= - first * B) by nia. lia.
+        -- subst first. change (0 <? 0) with false. simpl andb. cbv iota. left. lia.
+      * subst p len. destruct Hcase as [(?&?&?&Ef&Eb&?)|(?&?&Ef&Eb&?&?)].
+        -- assert (first <? 0 = true) as -> by (apply Z.ltb_lt; lia). simpl andb.
+           destruct (Z.leb_spec 0 (first + j)).
+           ++ left. rewrite Eb. assert (- first * B <= j * B) by nia. lia.
+           ++ right. rewrite Eb. assert ((j + 1) * B <= - first * B) by nia. lia.
+        -- subst first. change (0 <? 0) with false. simpl andb. cbv iota. left. lia.
+      * right. destruct Hcase as [(?&?&?&Ef&Eb&?)|(?&?&Ef&Eb&?&?)].
+        -- rewrite Eb in Hp1. destruct ((first <? 0) && (0 <=? first + j)); nia.
+        -- subst first. change (0 <? 0) with false. simpl andb. cbv iota. rewrite Eb in Hp1. nia.
+  - intros p len Hin. destruct (Hmeta p len Hin) as [(Ep & El)|[(HA3 & Ep & El)|(Hp1 & Hp2)]].
+    + subst p len. destruct Hcase as [(?&?&?&Ef&Eb&?)|(?&?&Ef&Eb&?&?)].
+      * rewrite Eb. assert (0 <= - first * B <= C * B) by nia. destruct (3 <=? A); lia.
+      * rewrite Eb. assert (0 <= C * B) by nia. destruct (3 <=? A); lia.
+    + subst p len. destruct Hcase as [(?&?&?&Ef&Eb&?)|(?&?&Ef&Eb&?&?)].
+      * rewrite Eb. assert (0 <= - first * B <= C * B) by nia. destruct (3 <=? A); lia.
+      * rewrite Eb. assert (0 <= C * B) by nia. destruct (3 <=? A); lia.
+    + destruct Hcase as [(?&?&?&Ef&Eb&?)|(?&?&Ef&Eb&?&?)].
+      * rewrite Eb in Hp1, Hp2. assert (0 <= - first * B <= C * B) by nia.
+        replace (fb - first * B + A + B * (C + first)) with (fb + A + C * B) in * by ring.
+        destruct (3 <=? A); lia.
+      * subst first. rewrite Eb in Hp1, Hp2. replace (fb - A + A + B * (C + 0)) with (fb + C * B) in * by ring.
+        destruct (3 <=? A); lia.
+Qed.
+End Layout.
+
+(* ====================== top-level statements (no section variables) ====================== *)
+(* legal parameters of a multi-block pool: what pvCheckParams enforces (check_params) + no overflow of the buffer size *)
+Definition legal (C B A : Z) : Prop :=
+  2 <= C <= 127 /\ 1 <= A <= 1024 /\ B mod A = 0 /\ 2 <= B / A /\ C * B + 4 * A + 32 < 2 ^ 63.
+(* an address the memory manager may return for a request of `size` bytes *)
+Definition begin_ok (A size begin : Z) : Prop :=
+  0 < begin /\ begin mod (gran A) = 0 /\ begin + size <= 2 ^ 64.
+
+Lemma legal_m C B A : legal C B A -> 2 <= B / A /\ B = A * (B / A).
+Proof. intros (HC & HA & Hd & Hm & Hs). split; [exact Hm|]. pose proof (Z.div_mod B A ltac:(lia)). lia. Qed.
+
+Lemma check_params_legal C B A :
+  PoolLayout.check_params C B A = true -> 2 <= C -> C * B + 4 * A + 32 < 2 ^ 63 -> legal C B A.
+Proof.
+  unfold PoolLayout.check_params, Gen_MemPoolConst.CheckBlockCount, Gen_MemPoolConst.CheckBlockAlignment.
+  intros H HC Hs. repeat (apply andb_prop in H; destruct H as [H ?]).
+  assert (C =? 1 = false) as E by (apply Z.eqb_neq; lia). rewrite E in *. simpl orb in *.
+  repeat match goal with H : (_ <=? _) = true |- _ => apply Z.leb_le in H | H : (_ <? _) = true |- _ => apply Z.ltb_lt in H
+                    | H : (_ =? _) = true |- _ => apply Z.eqb_eq in H end.
+  unfold legal. lia.
+Qed.
+
+(* params_corrected_ok: what MemPoolParams' constructor computes (CorrectBlockSize) passes pvCheckParams *)
+Lemma params_corrected_ok bs al C :
+  1 <= C <= 127 -> 1 <= al <= 1024 -> 0 <= bs <= 2 ^ 48 ->
+  PoolLayout.check_params C (Gen_MemPoolConst.CorrectBlockSize bs al C) al = true.
+Proof.
+  intros HC Hal Hbs. change (2 ^ 48) with 281474976710656 in Hbs.
+  assert (forall B, 0 < B <= 2 ^ 49 -> negb (B >? 18446744073709551615 / C) = true) as Hmax.
+  { intros B HB. change (2 ^ 49) with 562949953421312 in HB. rewrite Z.gtb_ltb.
+    assert (2 ^ 57 <= 18446744073709551615 / C) by (apply Z.div_le_lower_bound; [lia|]; change (2 ^ 57) with 144115188075855872; lia).
+    change (2 ^ 57) with 144115188075855872 in *.
+    destruct (Z.ltb_spec (18446744073709551615 / C) B); [lia|reflexivity]. }
+  unfold PoolLayout.check_params, Gen_MemPoolConst.CheckBlockCount, Gen_MemPoolConst.CheckBlockAlignment, Gen_MemPoolConst.CorrectBlockSize.
+  assert ((0 <? C) && (C <? 128) = true) as -> by (apply andb_true_intro; split; [apply Z.ltb_lt|apply Z.ltb_lt]; lia).
+  assert ((0 <? al) && (al <=? 1024) = true) as -> by (apply andb_true_intro; split; [apply Z.ltb_lt|apply Z.leb_le]; lia).
+  simpl andb.
+  destruct (Z.eqb_spec C 1) as [E1|E1].
+  - simpl orb. rewrite !andb_true_r.
+    rewrite Z.gtb_ltb. destruct (Z.ltb_spec 0 bs).
+    + assert (0 <? bs = true) as -> by (apply Z.ltb_lt; lia). simpl. apply Hmax. change (2 ^ 49) with 562949953421312. lia.
+    + simpl. apply Hmax. change (2 ^ 49) with 562949953421312. lia.
+  - simpl orb. destruct (Z.leb_spec bs al).
+    + rewrite wrapU_small by (rewrite two64; lia).
+      assert (0 <? 2 * al = true) as -> by (apply Z.ltb_lt; lia).
+      replace (2 * al) with (2 * al + 0) at 1 by ring. rewrite Z.mul_comm at 1. rewrite Z.add_comm, Z.mod_add by lia.
+      rewrite Z.mod_0_l by lia. simpl (0 =? 0).
+      rewrite Z.div_mul by lia. simpl (2 <=? 2). simpl andb. apply Hmax. change (2 ^ 49) with 562949953421312. lia.
+    + destruct (Ceil_spec bs al ltac:(lia) ltac:(lia) ltac:(rewrite two64; lia)) as (k & Ek & Hk).
+      rewrite Ek. assert (2 <= k) by nia.
+      assert (0 <? al * k = true) as -> by (apply Z.ltb_lt; nia).
+      rewrite (Z.mul_comm al k). rewrite Z.mod_mul by lia. simpl (0 =? 0).
+      rewrite Z.div_mul by lia. assert (2 <=? k = true) as -> by (apply Z.leb_le; lia). simpl andb.
+      apply Hmax. change (2 ^ 49) with 562949953421312. nia.
+Qed.
+
+(* newbuffer_layout + blockindex_roundtrip, for all legal parameters and every address the manager may return *)
+Theorem newbuffer_layout_thm C B A begin :
+  legal C B A -> begin_ok A (Gen_MemPool.pvGetBufferSize C B A) begin ->
+  exists fb first buffer,
+    PoolLayout.new_buffer_layout C B A begin = Ok (fb, fb - begin, first, buffer) /\
+    fb - begin < 65536 /\ - (C - 1) <= first <= 0 /\
+    Gen_MemPool.pvGetBlock B A buffer first = fb /\
+    let size := Gen_MemPool.pvGetBufferSize C B A in
+    (forall j, 0 <= j < C ->
+       let b := PoolLayout.block_of B A buffer first j in
+       -128 <= first + j <= 127 /\
+       b mod A = 0 /\ begin <= b /\ b + B <= begin + size /\
+       (forall j', j < j' < C -> b + B <= PoolLayout.block_of B A buffer first j') /\
+       (forall p len, In (p, len) (PoolLayout.meta_ranges C B A buffer first) -> p + len <= b \/ b + B <= p) /\
+       Gen_MemPool.pvGetBlockIndex C B A b = Ok (first + j, buffer)) /\
+    (forall p len, In (p, len) (PoolLayout.meta_ranges C B A buffer first) -> begin <= p /\ p + len <= begin + size).
+Proof.
+  intros L (Hb0 & Hbg & Hbe). destruct (legal_m C B A L) as (Hm & EB). destruct L as (HC & HA & _ & _ & Hs).
+  destruct (new_buffer_layout_spec C B A (B / A) HA Hm EB HC Hs begin Hb0 Hbg Hbe) as (fb & first & buffer & E & LO & Hoff).
+  exists fb, first, buffer. split; [exact E|]. split; [exact Hoff|].
+  split; [exact (laid_out_first_range C B A (B / A) HC _ _ _ _ LO)|].
+  split; [exact (first_block C B A (B / A) HA Hm EB HC Hs _ _ _ _ LO)|].
+  destruct (layout_geometry C B A (B / A) HA Hm EB HC Hs _ _ _ _ LO) as (G1 & G2).
+  cbv zeta. split; [|exact G2].
+  intros j Hj. destruct (G1 j Hj) as (a1 & a2 & a3 & a4 & a5).
+  destruct (block_explicit C B A (B / A) HA Hm EB HC Hs _ _ _ _ j LO Hj) as (R & _).
+  repeat split; try assumption; try lia.
+  exact (blockindex_roundtrip C B A (B / A) HA Hm EB HC Hs _ _ _ _ j LO Hj).
+Qed.
+
+(* ---------- single-block pools (blockCount = 1, alignment above the manager's): pvNewBlock1 / pvDeleteBlock1 ---------- *)
+Theorem block1_layout_thm B A buffer :
+  1 <= A <= 1024 -> 0 < B < 2 ^ 62 -> begin_ok A (Gen_MemPool.pvGetBufferSize1 B A) buffer ->
+  exists block,
+    PoolLayout.new_block1_layout B A buffer = Ok (block, block + B, block - buffer) /\
+    block mod A = 0 /\ buffer <= block /\
+    block + B + PoolLayout.offset_width <= buffer + Gen_MemPool.pvGetBufferSize1 B A /\
+    block - buffer < 65536 /\
+    (forall ld, ld (block + B) = block - buffer -> Gen_MemPool.pvDeleteBlock1 ld B A block = (block - buffer, buffer)).
+Proof.
+  intros HA HB (Hb0 & Hbg & Hbe). destruct (addend_facts A HA) as (Had & _ & _).
+  change (2 ^ 62) with 4611686018427387904 in HB. rewrite two64 in Hbe.
+  assert (Gen_MemPool.pvGetBufferSize1 B A = B + addend A + 2) as ES.
+  { unfold Gen_MemPool.pvGetBufferSize1. rewrite addend_indep.
+    rewrite (wrapU_small 64 (B + addend A)) by (rewrite two64; lia). rewrite wrapU_small by (rewrite two64; lia). reflexivity. }
+  rewrite ES in *.
+  destruct (Ceil_spec buffer A ltac:(lia) ltac:(lia) ltac:(rewrite two64; lia)) as (k & Ek & Hk).
+  pose proof (ceil_offset_le_addend A buffer k HA Hbg Hk) as Hoff.
+  unfold PoolLayout.new_block1_layout, Gen_MemPool.pvNewBlock1. cbv zeta. rewrite Ek.
+  rewrite (wrapU_small 64 (A * k - buffer)) by (rewrite two64; lia).
+  change (wrapU 64 (Z.shiftl 1 16)) with 65536.
+  destruct (Z.ltb_spec (A * k - buffer) 65536) as [Lt|Ge]; [|lia].
+  exists (A * k). replace (buffer + (A * k - buffer)) with (A * k) by ring.
+  rewrite (wrapU_small 16 (A * k - buffer)) by (change (2 ^ 16) with 65536; lia).
+  split; [reflexivity|]. split; [rewrite Z.mul_comm; apply Z.mod_mul; lia|].
+  unfold PoolLayout.offset_width. repeat split; try lia.
+  intros ld Hld. unfold Gen_MemPool.pvDeleteBlock1. cbv zeta. rewrite Hld. f_equal. ring.
+Qed.
+
+(* the shape pvNewBlock1 had BEFORE fix bf4257f (offset kept in one byte): legal alignments make its assertion fail *)
+Definition pvNewBlock1_onebyte (B A buffer : Z) : outcome Z :=
+  let uipBlock := Gen_UIntMath.Ceil buffer A in
+  let offset := wrapU 64 (uipBlock - buffer) in
+  if offset <? 256 then Ok (buffer + offset) else Stuck.
+
+Lemma block1_onebyte_refuted :
+  exists B A buffer, 1 <= A <= 1024 /\ 0 < B /\ 0 < buffer /\ buffer mod (gran A) = 0 /\ pvNewBlock1_onebyte B A buffer = Stuck.
+Proof. exists 8, 512, 16. vm_compute. repeat split; intros; discriminate. Qed.
